@@ -1107,7 +1107,8 @@ func KeywordRouting(p *core.Prog, r *core.Report) {
 		r.Unk(rule, "dependencies:entry", "-", "(*schemaPropsValidator).validateDependencies not found")
 	} else {
 		fDep := keywordFieldOf(p, "newSchemaPropsValidator", "Dependencies")
-		rt := &router{p: p, recvType: core.NamedOf(f.Signature.Recv().Type()), primitive: map[*ssa.Function]string{}, relevant: func(*ssa.Function) bool { return false }}
+		// (methods of the same validator are followed: the body of the loop may live in one)
+		rt := &router{p: p, recvType: core.NamedOf(f.Signature.Recv().Type()), primitive: map[*ssa.Function]string{}, relevant: func(*ssa.Function) bool { return true }}
 		var noSchema, noProp, spurious, aborted []string
 		n := 0
 		K := "K(arg1)"
